@@ -25,10 +25,10 @@ CoversSeed(s, p) ==
        \A v \in 1..NumValues : Cardinality({c \in cs : c.kind = "word" /\ c.v = v /\ c.n = s.mlen \div 2}) = 1
   /\ \A c \in cs : c.n > 0 /\ c.kind \in KindSet
 \* offsets: the word mutants touch every byte below 2*(mlen div 2), truncation reaches every
-\* proper prefix of the mutated region, flip/ff reach every byte of it
+\* proper prefix of the mutated region, flip/ff/inc/dec reach every byte of it
 CoversOffsets(s) ==
   /\ {2 * w + b : w \in 0..(Planned(s, "word") - 1), b \in {0, 1}} = 0..(2 * (s.mlen \div 2) - 1)
-  /\ Planned(s, "trunc") = s.mlen /\ Planned(s, "flip") = s.mlen /\ Planned(s, "ff") = s.mlen
+  /\ \A kind \in {"trunc", "flip", "ff", "inc", "dec"} : Planned(s, kind) = s.mlen
   /\ \A v \in 1..NumValues : WordValue(v, s.len) \in 0..65535
 PlanOK == i = 1 => LET p == Plan IN
                     /\ SeedsOK /\ \A k \in DOMAIN Seeds : CoversSeed(Seeds[k], p) /\ CoversOffsets(Seeds[k])
